@@ -976,6 +976,190 @@ def gen_eq_case(rng):
     return doc, ops, kind
 
 
+# ------------------------------------------------------------------------------------------------
+# results the binary form cannot hold (round 5).  The binn object behind jbl_patch / jbl_merge_patch refuses a member whose
+# name is longer than 255 bytes (binn_object_set_raw: keylen > 255) or equals a name already stored up to ASCII letter case
+# (SearchForKey: same length byte and strncasecmp == 0, which also stops at a 0 byte).  Written from iwbinn.c / the binn
+# format description, independent of the Coq model (WriteBack.v).
+BINN_KEY_MAX = 255
+
+
+def ckey(k):
+    return (len(k), k.split(b"\x00")[0].lower())         # bytes.lower() folds ASCII letters only, like the "C" locale
+
+
+def representable(v):
+    """can the binary form hold this value (oracle form: dict with bytes keys)?"""
+    if isinstance(v, list):
+        return all(representable(x) for x in v)
+    if isinstance(v, dict):
+        seen = set()
+        for k, x in v.items():
+            if len(k) > BINN_KEY_MAX or ckey(k) in seen or not representable(x):
+                return False
+            seen.add(ckey(k))
+    return True
+
+
+TWIN_NAMES = ["name", "key", "a", "Id", "x", "ab", "Zz", "kéy", "k1", "value", "op", "n_m", "a/b", "m~n"]
+
+
+def case_twin(rng, k):
+    """k with the case of 1..all of its ASCII letters flipped (never equal to k); None if k has no ASCII letter"""
+    pos = [i for i, c in enumerate(k) if c.isascii() and c.isalpha()]
+    if not pos:
+        return None
+    r = rng.below(4)
+    if r == 0:
+        flip = set(pos)
+    elif r == 1:
+        flip = {pos[0]}
+    elif r == 2:
+        flip = {pos[-1]}
+    else:
+        flip = {i for i in pos if rng.chance(1, 2)} or {rng.choice(pos)}
+    return "".join(c.swapcase() if i in flip else c for i, c in enumerate(k))
+
+
+def near_twin(rng, k):
+    """a name that looks like a twin of k but is not one for the binn object: other length, another letter, non-ASCII case"""
+    c = [k + "s", k + "S", k.upper() + "_", "_" + k, k[:-1] + ("y" if k[-1:] != "y" else "z"), k + k]
+    if len(k) > 1:
+        c.append(k[:-1].upper())
+    if "é" in k:
+        c.append(k.replace("é", "É"))     # E-acute: two other bytes, not an ASCII case pair
+    c = [x for x in c if x and x != k and ckey(x.encode()) != ckey(k.encode())]
+    return rng.choice(c)
+
+
+def long_name(rng, n):
+    stem = rng.choice(["L", "k", "name_", "Key"])
+    return (stem * (n // len(stem) + 1))[:n]
+
+
+LONG_LENS = [254, 255, 255, 256, 256, 257, 300, 300, 511, 1000]
+
+
+def wb_site(rng, k):
+    """-> (doc, pointer prefix of the object S in which the collision will arise, S).  S holds `k` as first / middle / last member;
+    S itself is the root, the first / a middle / the last member of its parent, an array item, or sits at depth 3"""
+    fill = [1, "s", None, True, [1, 2], {"in": 1}, 0.5, [], {}]
+    S = {}
+    nf = rng.weighted([(0, 2), (1, 3), (2, 3), (3, 1)])
+    at = rng.below(nf + 1)
+    for i in range(nf + 1):
+        if i == at:
+            S[k] = rng.choice(fill)
+        if i < nf:
+            S["m%d" % i] = rng.choice(fill)
+    lay = rng.below(7)
+    if lay == 0:
+        return S, "", S
+    if lay == 1:
+        return {"a": 1, "s": S, "c": [1, 2, 3], "d": "tail"}, "/s", S
+    if lay == 2:
+        return {"a": 1, "s": S}, "/s", S
+    if lay == 3:
+        return {"s": S, "z": 0}, "/s", S
+    if lay == 4:
+        return [0, S, {"t": 1}], "/1", S
+    if lay == 5:
+        return {"w": {"p": [S, 5], "q": 2}, "e": [7]}, "/w/p/0", S
+    return {"arr": [10, 20, 30, 40], "s": {"deep": {"er": S, "after": 1}, "n": 5}, "tail": [1]}, "/s/deep/er", S
+
+
+def gen_unrep_case(rng):
+    """(document, patch) whose RFC result contains member names the binary form cannot hold - case-only twins, names of
+    256+ bytes - at any depth and position (first / middle / last member; in objects that are not the last member of their
+    parent; below arrays), produced by add / copy / move / add_create / a literal value, after earlier successful operations
+    and followed by further ones; mixed with the near misses the binary form CAN hold (255 bytes, other length, non-ASCII
+    case, twin removed again later in the same patch).  Through the tree API all of them succeed."""
+    k = rng.choice(TWIN_NAMES)
+    doc, P, S = wb_site(rng, k)
+    what = rng.weighted([("twin", 8), ("near", 2), ("long", 5), ("value", 3), ("heal", 2), ("doc", 1)])
+    K = case_twin(rng, k) if what in ("twin", "heal") else None
+    if what in ("twin", "heal") and K is None:
+        what = "long"
+    ops = []
+    # earlier operations of the same patch, all successful
+    if rng.chance(1, 2):
+        pre = rng.below(4)
+        if pre == 0 and isinstance(doc, dict):
+            ops.append({"op": "add", "path": "/pre", "value": rng.choice([1, "p", [0], {"q": 1}])})
+        elif pre == 1 and isinstance(doc, dict) and "arr" in doc:
+            ops += [{"op": "remove", "path": "/arr/0"}, {"op": "add", "path": "/arr/1", "value": 25}, {"op": "add", "path": "/arr/-", "value": 50}]
+        elif pre == 2:
+            ops.append({"op": "replace", "path": P + "/" + esc(k), "value": rng.choice([2, "r", [1], {"x": {"y": 1}}])})
+        else:
+            ops.append({"op": "test", "path": P + "/" + esc(k), "value": S[k]})
+    fillers = [m for m in S if m != k]
+    if what in ("twin", "heal", "near"):
+        name = K if what != "near" else near_twin(rng, k)
+        how = rng.below(6)
+        if how == 0:
+            ops.append({"op": "add", "path": P + "/" + esc(name), "value": rng.choice([2, "t", [1, {"u": 1}], {"v": 1}])})
+        elif how == 1:
+            ops.append({"op": "copy", "from": P + "/" + esc(k), "path": P + "/" + esc(name)})
+        elif how == 2 and fillers:
+            ops.append({"op": "move", "from": P + "/" + esc(rng.choice(fillers)), "path": P + "/" + esc(name)})
+        elif how == 3:
+            ops.append({"op": "add_create", "path": P + "/" + esc(name) + rng.choice(["", "/sub", "/sub/x"]), "value": rng.choice([3, {"w": 1}])})
+        elif how == 4 and P:      # moved in from outside the object
+            tmp = "/" + str(len(doc)) if isinstance(doc, list) else "/tmp"
+            ops += [{"op": "add", "path": "/-" if isinstance(doc, list) else "/tmp", "value": {"from": "outside"}},
+                    {"op": "move", "from": tmp, "path": P + "/" + esc(name)}]
+        else:
+            ops.append({"op": "add", "path": P + "/" + esc(name), "value": S[k]})
+        if what == "heal":         # the intermediate document cannot be stored, the final one can
+            h = rng.below(3)
+            if h == 0:
+                ops.append({"op": "remove", "path": P + "/" + esc(name)})
+            elif h == 1:
+                ops.append({"op": "remove", "path": P + "/" + esc(k)})
+            else:
+                ops.append({"op": "move", "from": P + "/" + esc(name), "path": P + "/" + esc(name) + "_moved"})
+    elif what == "long":
+        n = rng.choice(LONG_LENS)
+        name = long_name(rng, n)
+        how = rng.below(4)
+        if how == 0:
+            ops.append({"op": "add", "path": P + "/" + name, "value": rng.choice([1, "v", {"in": [1]}])})
+        elif how == 1:
+            ops.append({"op": "move", "from": P + "/" + esc(k), "path": P + "/" + name})
+        elif how == 2:
+            ops.append({"op": "copy", "from": P + "/" + esc(k), "path": P + "/" + name})
+        else:
+            ops.append({"op": "add", "path": P + "/new", "value": {"x": 1, name: {"y": 2}, "z": 3}})
+        if rng.chance(1, 4):       # a second name of the same length that differs in the last byte / only in case beyond byte 255
+            ops.append({"op": "add", "path": P + "/" + name[:-1] + rng.choice(["#", name[-1].swapcase()]), "value": 0})
+    elif what == "value":          # the collision is inside a literal value of the patch
+        K2 = case_twin(rng, k) or long_name(rng, 256)
+        inner = rng.choice([{k: 1, K2: 2}, {k: 1, "mid": [1], K2: 2, "z": 3}, {"o": {k: 1, K2: {"d": 1}}, "after": 0},
+                            [{k: 1, K2: 2}, 5], [[{K2: 1, "m": 0, k: 2}], {"t": 1}]])
+        how = rng.below(3)
+        if how == 0:
+            ops.append({"op": "add", "path": P + "/new", "value": inner})
+        elif how == 1:
+            ops.append({"op": "replace", "path": P + "/" + esc(k), "value": inner})
+        else:
+            ops += [{"op": "add", "path": P + "/new", "value": inner}, {"op": "copy", "from": P + "/new", "path": P + "/new2"}]
+    else:                          # the document itself cannot be stored: jbl_from_json refuses it, the tree API works on it
+        K2 = case_twin(rng, k) or long_name(rng, 300)
+        S[K2] = rng.choice([9, {"q": 1}])
+        if rng.chance(1, 2):
+            S["zlast"] = 0
+        ops.append({"op": "add", "path": P + "/extra", "value": 1})
+    # operations after the collision: what follows the refused member in serialisation order
+    post = rng.below(5)
+    if post == 0:
+        ops.append({"op": "add", "path": P + "/zz", "value": rng.choice([1, [2], {"y": 0}])})
+    elif post == 1 and isinstance(doc, dict):
+        ops.append({"op": "add", "path": "/post", "value": "p"})
+    elif post == 2:
+        ops.append({"op": "test", "path": P + "/" + esc(k), "value": "no such value é"})       # fails unless k was removed: per RFC an error
+    return doc, ops, what
+
+
 def open_class(*texts):
     """the open-finding class (OPEN_CLASSES) a case falls into, judged from its JSON texts; None = none"""
     t = " ".join(texts)
@@ -1086,6 +1270,10 @@ def check(run):
     for _ in range(N // 2):
         doc, prog = gen_deep_case(rng)
         cases.append((gen_json(doc), gen_json(prog), doc, prog, "deep"))
+    # results the binary form cannot hold (case-only twin names, names of 256+ bytes) and their near misses
+    for _ in range(N // 2):
+        doc, prog, what = gen_unrep_case(rng)
+        cases.append((gen_json(doc), gen_json(prog), doc, prog, "wb-" + what))
     # the same equality asked directly (jbn_compare_nodes == 0, both argument orders)
     pairs = []
     for _ in range(N * 2):
@@ -1139,7 +1327,9 @@ def check(run):
         kind, exp = orc[0], orc[1]
         stopped_at = orc[2] if len(orc) > 2 else None
         opnames = "+".join(sorted(set(str(o.get("op", o.get("o", "?"))) if isinstance(o, dict) else "?" for o in prog))) if isinstance(prog, list) else "?"
-        run.dist("result:" + kind)
+        # the RFC result exists, but the binary form cannot hold it (a member name of 256+ bytes / two names equal up to ASCII case)
+        unrep = kind == "ok" and exp != ("NONE",) and not representable(exp)
+        run.dist("result:" + ("unrepresentable" if unrep else kind))
         run.dist("origin:" + origin)
         run.dist("len:%d" % (len(prog) if isinstance(prog, list) else 0))
         for o in (prog if isinstance(prog, list) else []):
@@ -1168,6 +1358,17 @@ def check(run):
                 viol("the implementation crashed/hung applying the patch (%s): doc %s patch %s" % (o, dt, pt))
                 continue
             f = fields(o)
+            binary = m[0] == "b"
+            if "docparse" in f:     # jbl_from_json / jbn_from_json refused the document: no patch call was made
+                if not (binary and f["docparse"] == "creation" and not representable(orig)):
+                    viol("the document is refused (%s) although it %s: doc %s" % (
+                        f["docparse"], "can be held by the binary form" if binary else "is well-formed JSON", dt))
+                else:
+                    run.dist("result:document-not-storable")
+                continue
+            if binary and not representable(orig):
+                viol("jbl_from_json accepted a document the binary form cannot hold (a member is lost or mangled): doc %s -> %s" % (dt, o[:200]))
+                continue
             if "rc" not in f:
                 run.broken.append("T2 harness: unexpected answer `%s`" % o[:200])
                 continue
@@ -1178,7 +1379,6 @@ def check(run):
                 if kind in ("ok", "err"):
                     viol("the resulting tree is not a well-formed document (cycle/duplicate member): %s" % o[:200])
                     continue
-            binary = m[0] == "b"
             if "doc" not in f:      # the harness' own exact decoding of the patch document rejected it; no API call was made
                 if kind == "ok":
                     viol("RFC 6902 applies this patch, decoding reports %s: doc %s patch %s" % (f["rc"], dt, pt))
@@ -1192,7 +1392,9 @@ def check(run):
                     viol("failed patch (rc=%s) changed the binary document: doc %s patch %s -> %s" % (f["rc"], dt, pt, o[:200]))
                     continue
             if kind == "ok":
-                if f["rc"] != "ok":
+                if binary and unrep and f["rc"] == "creation":
+                    pass        # reported, and (checked above) the binary document is byte for byte the one before the call
+                elif f["rc"] != "ok":
                     viol("RFC 6902 applies this patch, the library reports %s: doc %s patch %s" % (f["rc"], dt, pt))
                 elif not eq_unordered(got, exp, binary):
                     viol("result differs from RFC 6902 (mode %s): doc %s patch %s -> %s, expected %s" % (m, dt, pt, f["doc"], to_json(exp) if exp != ("NONE",) else "(no document)"))
@@ -1231,6 +1433,10 @@ def check(run):
                            "less than 1 / 2^32 apart / in exponent form, strings by last byte / length+256, members renamed or with "
                            "exchanged values) at depth 0-4 with `test <near miss | same value reordered | 1 vs 1.0>` followed by a "
                            "modifying operation; plus (cmp:*) such value pairs given to jbn_compare_nodes directly in both orders; "
+                           "plus (origin:wb-*) patches whose RFC result holds member names the binary form cannot store (case-only "
+                           "twins, 256-1000 bytes; first/middle/last member, nested objects that are not the last member, below "
+                           "arrays; via add/copy/move/add_create/literal values; after earlier successful operations and followed by "
+                           "more) and their storable near misses (255 bytes, other length, non-ASCII case, twin removed again); "
                            "a case is one pair; distinct = distinct (document, patch) text",
                       assumptions=["oracle domain: patches the RFC applies or rejects; inputs the library reads more leniently than the "
                                    "RFC (iwatoi indices, '-' as last element, '/' as root, names by prefix) are only compared with the model "
@@ -1238,6 +1444,9 @@ def check(run):
                                    "JSON texts use only syntax on which text parsing is not in question (no \\r, no control characters, "
                                    "doubles x.5) - text parsing is C13's subject",
                                    "object member names are distinct (qsort order of equal keys in _jbl_compare_objects is unspecified)",
+                                   "binary-form modes, RFC result not storable in the binary form (result:unrepresentable): the call must "
+                                   "either succeed with exactly the RFC result or report JBL_ERROR_CREATION with the binary document byte "
+                                   "for byte as before; a document that is itself not storable must be refused by jbl_from_json",
                                    "doubles come from a fixed list whose JSON text iwstrtod reads exactly (it is not correctly rounded: "
                                    "C13); classes on which the unmodified library is known to contradict rfc6902 4.6 are generated only "
                                    "with VERIF_JPATCH_OPEN=all (notes/jpatch.md 'Open findings'): %s; enabled now: %s"
